@@ -212,10 +212,15 @@ func findInAlternates[T any](s *ObjectStorage, fn func(*ObjectStorage) (T, error
 	}
 
 	err := g.Wait()
-	if err != nil && !found {
+	if found {
+		return foundVal, nil
+	}
+	// No alternate has it: not-found answers were swallowed above, so
+	// a nil error here still means "not found", never "found".
+	if err != nil {
 		return zero, errors.Join(err, plumbing.ErrObjectNotFound)
 	}
-	return foundVal, nil
+	return zero, plumbing.ErrObjectNotFound
 }
 
 // requireIndex ensures s.index is populated, performing a cold-load
